@@ -1,4 +1,20 @@
-"""C14  Text query parser: documented grammar, clean failure only."""
+"""C14  Text query parser: documented grammar, clean failure only.
+
+Atoms are data: the streams put every printable ASCII punctuation character, text that means something to
+%-formatting / str.format / string.Template / regular expressions / escapes (`%`, `%s`, `%(x)s`, `{}`, `{0}`, `\\`,
+NUL, ...), control characters and very long atoms (200 - 20000 characters) into atoms in every syntactic position,
+and a dedicated stream places a chosen token at the position a syntax error is reported AT (an atom can be the
+offending token only right after a `)`: `(a) X` -> EOF required, `((a) X)` -> `)` required).  Quoted strings
+carry each of the 29 white-space characters, the C0 controls, DEL, NEL, NBSP, zero-width space, BOM, LS/PS inside
+and glued to the quotes.
+
+Seeded C14_F (`_require` concatenates repr(token) into a %-format string) was missed before and is caught now
+(quick, seeds 0-3).  Two more of the class, both VIOLATION on quick seed 0:
+  a  parseQuery builds "Query contains only common words: " + repr(query) and applies `% ()` to it - needs a query
+     of ignorable atoms only that contains `%` (TypeError / ValueError escape, check_query raises)
+  b  the tokenizer regex caps an atom at 4096 characters (`[^()\\s"]{1,4096}`) - needs an atom longer than that
+     (it becomes two atoms: another tree)
+"""
 import re
 import sys
 
@@ -19,12 +35,22 @@ RULE = ("each case = 8 query strings x (parse, check, exec) against QueryParser(
         "(a) generated from the grammar (OrExpr/AndExpr/Term/ATOM+ with AND, AND NOT, NOT, parentheses to "
         "depth 4, hyphens, quoted phrases, punctuation-joined words, globs, stop words, mixed-case keywords, "
         "29 kinds of white space, up to ~14 tokens), (b) the same with 1-3 token-level edits (drop/insert/"
-        "swap/duplicate), (c) character noise over ( ) \" - * ? letters keywords Unicode spaces, (d) only "
+        "swap/duplicate; 25% of the inserted tokens are 'weird' atoms), (b') 8% error-position stream: a chosen "
+        "token (60% weird atom, 15% quoted string with control characters) right after a `)`, the query cut "
+        "where more is required, or a keyword / `)` after an operator, (c) character noise over ( ) \" - * ? "
+        "letters keywords Unicode spaces (half of it additionally over all ASCII punctuation, 80 format-like "
+        "fragments and 46 control / white-space characters), (d) only "
         "stop words / only negations / empty, (e) nesting to depth 5000 (balanced, unbalanced, alternating "
         "OR/AND so that the tree is deep too); extra: every token sequence of length <= 4 (thorough 5) over "
         "{AND OR NOT ( ) foo -bar the \"x y\" q*} and every string of length <= 5 (thorough 7) over "
-        "{( ) \" - a U+3000}; non-trivial = the case has an accepted query with an operator node and a "
-        "rejected one")
+        "{( ) \" - a U+3000}; 11% of all atoms are weird atoms (fragment alone / word+fragment / punctuation "
+        "run / two fragments / fragment+glob / 3%: one of 10 units repeated 200-20000 times), 5% quoted strings "
+        "with control characters (a quarter glued to a neighbour). Measured quick seed 0 (51200 generated queries): "
+        "tokens containing % 14921, containing { \\ or $ 16059, tokens >= 200 chars 1231, quoted strings with a "
+        "control / Unicode-space character 8495 (newline 712, NUL 436); ParseErrors reported AT an atom 1612 "
+        "(required-EOF 839, required-) 773), of which the atom has % 296, { 128, backslash 133, NUL 53, a control "
+        "character 182, >= 200 chars 30, is a quoted string 270; non-trivial = the case has an accepted query "
+        "with an operator node and a rejected one")
 TRUSTED = ["the lexicon is not modelled here: per ATOM token the real lexicon.parseTerms result is handed to the "
            "model as a cfg line (the lexicon itself is property C15)",
            "re-validated on every run over all 1 114 112 code points: the set matched by \\s, and that no "
@@ -228,7 +254,73 @@ def gen_word(rng):
     return rng.choice(WORDS)
 
 
+# every printable ASCII character that can sit inside an atom and is not a letter or digit
+PUNCT = [chr(c) for c in range(33, 127) if not chr(c).isalnum() and chr(c) not in '()"']
+# text that means something to %-formatting, str.format, string.Template, regular expressions, escapes,
+# C strings, HTML - an atom is data and must stay data wherever it ends up (tree, ignored list, error message)
+FRAGS = ["%", "%%", "%s", "%r", "%d", "%i", "%c", "%a", "%5", "%.", "%.3f", "%-5s", "%*d", "% d", "%(", "%(x)s",
+         "%(x)", "%)", "%\x00", "%\n", "50%", "5%s", "%s%s", "{}", "{0}", "{1}", "{x}", "{0!r}", "{:>5}", "{", "}",
+         "{{", "}}", "{0", "\\", "\\\\", "\\n", "\\x", "\\u12", "\\N{", "\\1", "\\g<0>", "$", "$x", "${x}", "$$",
+         "\x00", "\x00\x00", "a\x00b", "\x01", "\x07", "\x08", "\x1b[0m", "\x7f", "&amp;", "<b>", "</b>", "<", ">",
+         "[", "]", "[a-", "a]", "^", "|", "+", ".*", "(?", "(?P<", "\\Z", "'", "''", "`", "#", ";", "--", "/*", "=",
+         "\udcff", "\ufffe", "\U0010ffff"]
+# white space and control characters for the inside / the neighbourhood of quotes
+CONTROLS = [chr(c) for c in list(range(0, 32)) + [0x7f, 0x85, 0xa0, 0x1680, 0x2000, 0x2003, 0x200a, 0x200b, 0x2028,
+                                                    0x2029, 0x202f, 0x205f, 0x3000, 0xfeff]]
+LONG = [200, 200, 300, 1000, 1000, 5000, 20000]
+
+
+def gen_weird_atom(rng):
+    """an atom full of characters that are special somewhere else; may contain ( ) or a space, in which case it
+    is several tokens - equally fine"""
+    r = rng.random()
+    if r < 0.28:
+        a = rng.choice(FRAGS)
+    elif r < 0.56:
+        w = rng.choice(WORDS[:7] + ["5", "50", "x"])
+        f = rng.choice(FRAGS)
+        a = rng.choice([w + f, f + w, w + f + rng.choice(WORDS[:7]), f + w + f])
+    elif r < 0.74:
+        a = "".join(rng.choice(PUNCT) if rng.random() < 0.7 else rng.choice("abx05")
+                    for _ in range(rng.randrange(1, 7)))
+    elif r < 0.86:
+        a = rng.choice(FRAGS) + rng.choice(FRAGS)
+    elif r < 0.97:
+        a = rng.choice(WORDS[:4]) + rng.choice(FRAGS) + rng.choice(["*", "?", "*?", "?*x"])
+    else:
+        a = rng.choice(["a", "%", "ab%s", "é", "\\", "{}", "x.", "-", "q?", "\x00"]) * rng.choice(LONG)
+    if rng.random() < 0.1:
+        a = "-" + a
+    return a
+
+
+def gen_quoted(rng):
+    """a quoted string with white space / control characters / special text inside"""
+    parts = []
+    for _ in range(rng.randrange(0, 5)):
+        r = rng.random()
+        if r < 0.4:
+            parts.append(gen_word(rng))
+        elif r < 0.7:
+            parts.append(rng.choice(CONTROLS) if rng.random() < 0.7 else chr(rng.choice(SPACES)))
+        elif r < 0.85:
+            parts.append(rng.choice(FRAGS).replace('"', ""))
+        else:
+            parts.append(rng.choice(["(", ")", "AND", "or", "NOT", "-", "*", " ", "  "]))
+    sep = rng.choice(["", " ", " ", rng.choice(CONTROLS)])
+    return '"' + sep.join(parts) + '"'
+
+
 def gen_atom(rng):
+    r = rng.random()
+    if r < 0.11:
+        return gen_weird_atom(rng)
+    if r < 0.16:
+        a = gen_quoted(rng)
+        if rng.random() < 0.25:     # glued to its neighbours: control characters / words right at the quotes
+            a = rng.choice([rng.choice(CONTROLS), gen_word(rng), ""]) + a + rng.choice([rng.choice(CONTROLS),
+                                                                                        gen_word(rng), ""])
+        return ("-" if rng.random() < 0.13 else "") + a
     r = rng.random()
     if r < 0.45:
         a = gen_word(rng)
@@ -314,7 +406,8 @@ def edit(rng, toks):
         if r < 0.35 and toks:
             del toks[rng.randrange(len(toks))]
         elif r < 0.7:
-            toks.insert(rng.randrange(len(toks) + 1), rng.choice(EDIT_TOKENS))
+            toks.insert(rng.randrange(len(toks) + 1),
+                        rng.choice(EDIT_TOKENS) if rng.random() < 0.75 else gen_weird_atom(rng))
         elif r < 0.85 and len(toks) > 1:
             i = rng.randrange(len(toks) - 1)
             toks[i], toks[i + 1] = toks[i + 1], toks[i]
@@ -330,7 +423,64 @@ NOISE = ["(", ")", '"', "-", "*", "?", " ", " ", "a", "b", "foo", "the", "AND", 
 
 
 def gen_noise(rng):
-    return "".join(rng.choice(NOISE) for _ in range(rng.randrange(0, 16)))
+    r = rng.random()
+    if r < 0.5:
+        alpha = NOISE
+    elif r < 0.8:       # all of printable ASCII punctuation, format-like fragments, control characters
+        alpha = NOISE + PUNCT + FRAGS + CONTROLS
+    else:
+        alpha = ["(", ")", '"', " ", "a"] + PUNCT + FRAGS
+    return "".join(rng.choice(alpha) for _ in range(rng.randrange(0, 16)))
+
+
+def culprit(rng):
+    """the token a syntax error will be reported AT"""
+    r = rng.random()
+    if r < 0.6:
+        return gen_weird_atom(rng)
+    if r < 0.75:
+        return gen_quoted(rng)
+    if r < 0.9:
+        return gen_atom(rng)
+    return rng.choice(["EOF", "'", "-", "%", "ATOM", "None", "\\"])
+
+
+def gen_errpos(rng):
+    """malformed on purpose, with a chosen token at the position the parser stops at: an atom can be the
+    offending token only right after a `)` (`(a) X`: EOF required, `((a) X)`: `)` required); every other position
+    reports a keyword, a parenthesis or the end of the query"""
+    toks = gen_or(rng, 0, [rng.choice([2, 4, 8])])
+    r = rng.random()
+    if r < 0.75:
+        if ")" not in toks or rng.random() < 0.4:
+            a = rng.randrange(len(toks))
+            depth = 0
+            b = a
+            # close the parenthesis at a point of equal depth
+            for j in range(a, len(toks)):
+                depth += toks[j] == "("
+                depth -= toks[j] == ")"
+                if depth < 0:
+                    break
+                if depth == 0:
+                    b = j
+                    if rng.random() < 0.4:
+                        break
+            toks = toks[:a] + ["("] + toks[a:b + 1] + [")"] + toks[b + 1:]
+        k = rng.choice([i for i, t in enumerate(toks) if t == ")"])
+        toks.insert(k + 1, culprit(rng))
+        if rng.random() < 0.3:
+            toks = ["("] + toks + [")"]
+        if rng.random() < 0.2:
+            toks.insert(k + 2, culprit(rng))
+    elif r < 0.85:
+        # the query ends where more is required
+        toks = toks[:rng.randrange(len(toks) + 1)] + [rng.choice(["(", kw(rng, "AND"), kw(rng, "OR"), kw(rng, "NOT")])]
+    else:
+        ops = [i for i, t in enumerate(toks) if t == "(" or t.upper() in ("AND", "OR", "NOT")]
+        k = rng.choice(ops) if ops else -1
+        toks.insert(k + 1, rng.choice([")", kw(rng, "AND"), kw(rng, "OR"), ")", kw(rng, "NOT")]))
+    return join(rng, toks)
 
 
 def gen_special(rng):
@@ -376,8 +526,10 @@ def gen_query(rng):
     r = rng.random()
     if r < 0.45:
         return join(rng, gen_or(rng, 0, [rng.choice([4, 8, 12, 14])]))
-    if r < 0.7:
+    if r < 0.64:
         return join(rng, edit(rng, gen_or(rng, 0, [rng.choice([4, 8, 12])])))
+    if r < 0.72:
+        return gen_errpos(rng)
     if r < 0.85:
         return gen_noise(rng)
     if r < 0.985:
@@ -391,12 +543,39 @@ def gen(rng, tier, idx):
 
 
 # ---------------------------------------------------------------------------- measurement
+def found_kind(q):
+    """which token the parser stops at when it reports `Token X required, Y found` (computed from the harness'
+    own tokenizer and the model's answer being an error: the first token a prefix-valid parse cannot take is
+    not needed here - only what KIND of token follows a `)`)"""
+    toks = RX.findall(q)
+    out = set()
+    for i, t in enumerate(toks[:-1]):
+        n = toks[i + 1]
+        if t == ")" and n not in "()" and n.upper() not in ("AND", "OR", "NOT"):
+            body = n[1:] if n.startswith("-") else n
+            k = "quoted" if body.startswith('"') else "atom"
+            out.add("atom-after-):" + k)
+            for ch, name in (("%", "percent"), ("{", "brace"), ("\\", "backslash"), ("\x00", "NUL"), ("$", "dollar")):
+                if ch in n:
+                    out.add("atom-after-):has-" + name)
+            if any(ord(c) < 32 or ord(c) == 127 for c in n):
+                out.add("atom-after-):has-control-char")
+            if len(n) >= 200:
+                out.add("atom-after-):long>=200")
+    return out
+
+
 def err_kind(hyp, pipeline, q):
     from hypatia.text.queryparser import QueryParser
     try:
         QueryParser(lexicon_for_terms(pipeline)).parseQuery(q)
     except Exception as e:
         m = str(e)
+        if "required, " in m and m.endswith(" found"):
+            fnd = m.split("required, ", 1)[1][:-6]
+            if fnd[:1] in "'\"" and fnd not in ("'EOF'", "'('", "')'") and fnd[1:-1].upper() not in ("AND", "OR", "NOT"):
+                return ("required-EOF" if "Token 'EOF'" in m else "required-)" if "Token ')'" in m
+                        else "required-ATOM") + ":atom-found"
         for k, v in (("Token 'ATOM'", "required-ATOM"), ("Token ')'", "required-)"), ("Token 'EOF'", "required-EOF"),
                      ("at least one positive", "no-positive-word"), ("only common words", "only-common-words"),
                      ("nested too deeply", "nested-too-deeply")):
@@ -442,11 +621,31 @@ def features(case, outs):
                 f.append("and-with-not-child")
         elif o.startswith("err ParseError"):
             f.append("parse:" + o)
-            f.append("error:" + err_kind(None, pipeline, q))
+            ek = err_kind(None, pipeline, q)
+            f.append("error:" + ek)
+            if ek.endswith(":atom-found"):
+                f.append("error:atom-found")
+                for k in found_kind(q):
+                    f.append("error:" + k)
         else:
             f.append("parse:" + o.split(" ")[0] + " " + o.split(" ")[1] if " " in o else o)
         if q.count('"') % 2 == 1:
             f.append("odd-quotes")
+        for t in toks:
+            if t not in "()" :
+                if "%" in t:
+                    f.append("token-with-percent")
+                if "{" in t or "\\" in t or "$" in t:
+                    f.append("token-with-brace-backslash-dollar")
+                if len(t) >= 200:
+                    f.append("token-long>=200")
+                if '"' in t and any((ord(c) < 32 or ord(c) in (127, 0x85) or ord(c) > 127 and ord(c) in SPACES_SET)
+                                    for c in t):
+                    f.append("quoted-with-control-or-unicode-space")
+                    if "\n" in t or "\r" in t:
+                        f.append("quoted-with-newline")
+                    if "\x00" in t:
+                        f.append("quoted-with-NUL")
         if any(t == "-" for t in toks):
             f.append("lone-hyphen-token")
         if any(t.startswith('-"') for t in toks):
